@@ -1649,6 +1649,16 @@ bool SchindelhauerTMCG::TMCG_VerifyStackEquality
 				if ((ss[j].second.r.size() != TMCG_Players) ||
 					(ss[j].second.r[0].size() != TMCG_TypeBits))
 					throw false;
+				// a masking preserves the card type only if the mask bits
+				// of all players cancel out for every type bit
+				for (size_t w = 0; w < TMCG_TypeBits; w++)
+				{
+					unsigned long int parity = 0;
+					for (size_t k = 0; k < TMCG_Players; k++)
+						parity ^= (mpz_get_ui(&ss[j].second.b[k][w]) & 1UL);
+					if (parity)
+						throw false;
+				}
 			}
 			// verify equality proof
 			if (mpz_get_ui(foo) & 1UL)
